@@ -65,9 +65,12 @@ class Executor:
         self.pending_fault = None  # C10: description of the last cache fault not yet followed by a scan
         self.last_scan_report = None
         self.fresh_memo = {}
+        self.fresh_memo_on = False   # sweeps restore the same tree over and over: one reference per tree state
         self.lib_history = []
         self.n_reports = 0
         self.stop = False
+        self.subcases = 0
+        self.subcase_digests = set()
         self.recorder = bool(seams._INSTALLED.get("path_recorder"))
 
     # -- helpers ----------------------------------------------------------------
@@ -128,6 +131,8 @@ class Executor:
             "steps": self.steps,
             "n_ops": len(self.ops),
             "n_reports": self.n_reports,
+            "subcases": self.subcases,
+            "subcase_digests": sorted(self.subcase_digests),
         }
 
     def obs_digest(self, obs):
@@ -209,6 +214,9 @@ class Executor:
         if k == "crash_sweep":
             from .props import c10
             return c10.do_crash_sweep(self, idx, op)
+        if k == "struct_sweep":
+            from .props import c10
+            return c10.do_struct_sweep(self, idx, op)
         if k == "analysis_sweep":
             from .props import c03
             return c03.do_analysis_sweep(self, idx, op)
@@ -283,16 +291,25 @@ class Executor:
         """From-scratch scan of the current tree under the current configuration
         (the reference model: same entry point, no durable state)."""
         w = self.world
+        key = None
+        if self.fresh_memo_on:
+            key = O.digest([w.tree_digest(), w.cli_excludes, w.yml_patterns, w.gi_patterns, w.git, w.spelling])
+            if key in self.fresh_memo:
+                CTX.counters["reference_scans_memoised"] += 1
+                return self.fresh_memo[key]
         had = w.stash_cache()
         saved = (CTX.clock, CTX.uuid_n)
         try:
             obs = w.scan("%s/ref" % nonce, set_policy=self.set_policy, walk_policy=self.walk_policy)
             F = w.cache_json() if obs["outcome"] == "ok" else None
-            markers = [m for m in MARKERS if os.path.exists(os.path.join(w.cache_dir, m))]
+            markers = {m: read_bytes(os.path.join(w.cache_dir, m)) for m in MARKERS
+                       if os.path.exists(os.path.join(w.cache_dir, m))}
         finally:
             w.unstash_cache(had)
             CTX.clock, CTX.uuid_n = saved
         CTX.counters["reference_scans"] += 1
+        if key is not None:
+            self.fresh_memo[key] = (obs, F, markers)
         return obs, F, markers
 
     def do_scan(self, idx, op):
